@@ -80,6 +80,10 @@ pub enum Step {
     /// Kill the process. The next one (new hash universe) restores the newest durable checkpoint,
     /// or cold-boots if there is none, and re-executes the lines after it.
     Crash { hash_seed: u64 },
+    /// Same, but the next process is a separate OS process (ASLR on, so code and heap addresses
+    /// differ) that creates `tag_skew` command tags before it builds its VM (so every static tag
+    /// gets a different number than in the process that wrote the checkpoint).
+    CrashToOsProcess { hash_seed: u64, tag_skew: u32 },
 }
 
 #[derive(Clone, Debug, Default, Serialize, Deserialize, PartialEq, Eq)]
@@ -122,6 +126,8 @@ pub struct FaultCounts {
     pub roundtrips: u64,
     pub by_format: [u64; 3],
     pub lines_reexecuted: u64,
+    #[serde(default)]
+    pub os_process_restarts: u64,
 }
 
 impl FaultCounts {
@@ -136,6 +142,7 @@ impl FaultCounts {
             self.by_format[i] += o.by_format[i];
         }
         self.lines_reexecuted += o.lines_reexecuted;
+        self.os_process_restarts += o.os_process_restarts;
     }
 }
 
@@ -155,9 +162,12 @@ pub struct Trace {
     /// Sizes of the checkpoints written (for the event log; bytes themselves are hash-ordered).
     pub checkpoint_sizes: Vec<usize>,
     pub aborted: Option<String>,
+    /// The harness itself failed (e.g. a child OS process could not be run): never a verdict.
+    #[serde(default)]
+    pub harness_error: Option<String>,
 }
 
-#[derive(Clone)]
+#[derive(Clone, Serialize, Deserialize)]
 struct Ckpt {
     next_line: usize,
     format: Format,
@@ -167,6 +177,7 @@ struct Ckpt {
     generation: usize,
 }
 
+#[derive(Serialize, Deserialize)]
 struct SegIn {
     job: Job,
     start: Option<Ckpt>,
@@ -176,6 +187,7 @@ struct SegIn {
     stop_on_panic: bool,
 }
 
+#[derive(Serialize, Deserialize)]
 struct SegOut {
     execs: Vec<Exec>,
     events: Vec<String>,
@@ -329,7 +341,9 @@ fn run_segment(si: SegIn) -> SegOut {
                     });
                 }
             },
-            Step::Crash { .. } => unreachable!("segments are cut at crashes"),
+            Step::Crash { .. } | Step::CrashToOsProcess { .. } => {
+                unreachable!("segments are cut at crashes")
+            }
         }
     }
     if si.run_to_end {
@@ -345,16 +359,20 @@ pub fn run_job(job: &Job, sched: &Schedule, stop_on_panic: bool) -> Trace {
     let mut trace = Trace::default();
     let mut durable: Vec<Ckpt> = vec![];
     // Cut the schedule into segments at crashes.
-    let mut segments: Vec<(u64, Vec<Step>)> = vec![(sched.first_hash_seed, vec![])];
+    let mut segments: Vec<(u64, Option<u32>, Vec<Step>)> = vec![(sched.first_hash_seed, None, vec![])];
     for s in &sched.steps {
         match s {
-            Step::Crash { hash_seed } => segments.push((*hash_seed, vec![])),
-            other => segments.last_mut().unwrap().1.push(other.clone()),
+            Step::Crash { hash_seed } => segments.push((*hash_seed, None, vec![])),
+            Step::CrashToOsProcess {
+                hash_seed,
+                tag_skew,
+            } => segments.push((*hash_seed, Some(*tag_skew), vec![])),
+            other => segments.last_mut().unwrap().2.push(other.clone()),
         }
     }
     let nseg = segments.len();
     let mut high_water = 0usize;
-    for (i, (hash_seed, steps)) in segments.into_iter().enumerate() {
+    for (i, (hash_seed, os_process, steps)) in segments.into_iter().enumerate() {
         let start = if i == 0 { None } else { durable.last().cloned() };
         if i > 0 {
             trace.counts.crashes += 1;
@@ -378,39 +396,37 @@ pub fn run_job(job: &Job, sched: &Schedule, stop_on_panic: bool) -> Trace {
             run_to_end: i + 1 == nseg,
             stop_on_panic,
         };
-        let so = match process::run_process(hash_seed, move || {
-            let o = run_segment(si);
-            (
-                o.execs,
-                o.events,
-                o.failures,
-                o.new_ckpts
-                    .into_iter()
-                    .map(|c| {
-                        (
-                            c.next_line,
-                            c.format,
-                            c.bytes,
-                            c.cursor,
-                            c.files,
-                            c.generation,
-                        )
-                    })
-                    .collect::<Vec<_>>(),
-                o.counts,
-                o.sizes,
-                o.next_line,
-                o.poisoned,
-                o.fatal,
-            )
-        }) {
-            Ok(v) => v,
-            Err((loc, msg)) => {
-                trace.aborted = Some(format!("process panicked outside a line at {loc}: {msg}"));
-                return trace;
-            }
+        if os_process.is_some() {
+            trace.counts.os_process_restarts += 1;
+        }
+        let so: SegOut = match os_process {
+            None => match process::run_process(hash_seed, move || run_segment(si)) {
+                Ok(v) => v,
+                Err((loc, msg)) => {
+                    trace.aborted =
+                        Some(format!("process panicked outside a line at {loc}: {msg}"));
+                    return trace;
+                }
+            },
+            Some(skew) => match run_segment_in_os_process(&si, hash_seed, skew) {
+                Ok(v) => v,
+                Err(e) => {
+                    trace.harness_error = Some(format!("child OS process failed: {e}"));
+                    return trace;
+                }
+            },
         };
-        let (execs, events, failures, new_ckpts, counts, sizes, next_line, poisoned, fatal) = so;
+        let SegOut {
+            execs,
+            events,
+            failures,
+            new_ckpts,
+            counts,
+            sizes,
+            next_line,
+            poisoned,
+            fatal,
+        } = so;
         for e in &execs {
             if e.line < high_water {
                 trace.counts.lines_reexecuted += 1;
@@ -422,16 +438,7 @@ pub fn run_job(job: &Job, sched: &Schedule, stop_on_panic: bool) -> Trace {
         trace.failures.extend(failures);
         trace.counts.add(&counts);
         trace.checkpoint_sizes.extend(sizes);
-        for (next_line, format, bytes, cursor, files, generation) in new_ckpts {
-            durable.push(Ckpt {
-                next_line,
-                format,
-                bytes,
-                cursor,
-                files,
-                generation,
-            });
-        }
+        durable.extend(new_ckpts);
         if poisoned {
             trace.events.push("poisoned: panic inside a line".into());
             break;
@@ -442,4 +449,99 @@ pub fn run_job(job: &Job, sched: &Schedule, stop_on_panic: bool) -> Trace {
         }
     }
     trace
+}
+
+
+/// Run one segment in a separate OS process: `texsim segment-child <in> <out>`.
+fn run_segment_in_os_process(si: &SegIn, hash_seed: u64, tag_skew: u32) -> Result<SegOut, String> {
+    static COUNTER: std::sync::atomic::AtomicU64 = std::sync::atomic::AtomicU64::new(0);
+    let n = COUNTER.fetch_add(1, std::sync::atomic::Ordering::SeqCst);
+    let dir = std::env::temp_dir();
+    let fin = dir.join(format!("texsim-{}-seg-{n}.in", std::process::id()));
+    let fout = dir.join(format!("texsim-{}-seg-{n}.out", std::process::id()));
+    let bytes = bincode::serde::encode_to_vec(si, bincode::config::standard())
+        .map_err(|e| format!("encode: {e}"))?;
+    std::fs::write(&fin, bytes).map_err(|e| e.to_string())?;
+    let exe = std::env::current_exe().map_err(|e| e.to_string())?;
+    let out = std::process::Command::new(exe)
+        .arg("segment-child")
+        .arg(&fin)
+        .arg(&fout)
+        .arg(hash_seed.to_string())
+        .arg(tag_skew.to_string())
+        .output()
+        .map_err(|e| e.to_string())?;
+    let r = (|| {
+        if !out.status.success() {
+            return Err(format!(
+                "exit {:?}: {}",
+                out.status.code(),
+                String::from_utf8_lossy(&out.stdout)
+            ));
+        }
+        let b = std::fs::read(&fout).map_err(|e| e.to_string())?;
+        let (so, _): (SegOut, usize) =
+            bincode::serde::decode_from_slice(&b, bincode::config::standard())
+                .map_err(|e| format!("decode: {e}"))?;
+        Ok(so)
+    })();
+    let _ = std::fs::remove_file(&fin);
+    let _ = std::fs::remove_file(&fout);
+    r
+}
+
+/// Entry point of the child: re-enable ASLR for itself (the parent runs under `setarch -R`, which
+/// children inherit), burn `tag_skew` tags, then run the segment in a simulated process.
+pub fn segment_child_main(args: &[String]) -> i32 {
+    if std::env::var("TEXSIM_CHILD_REEXEC").is_err() {
+        // Clear ADDR_NO_RANDOMIZE and exec ourselves again so that the new image is randomised.
+        unsafe {
+            let cur = libc::personality(0xffff_ffff);
+            if cur >= 0 {
+                libc::personality((cur as libc::c_ulong) & !(libc::ADDR_NO_RANDOMIZE as libc::c_ulong));
+            }
+        }
+        let exe = std::env::current_exe().unwrap();
+        let st = std::process::Command::new(exe)
+            .arg("segment-child")
+            .args(args)
+            .env("TEXSIM_CHILD_REEXEC", "1")
+            .status();
+        return match st {
+            Ok(s) => s.code().unwrap_or(3),
+            Err(_) => 3,
+        };
+    }
+    let hash_seed: u64 = args[2].parse().unwrap_or(1);
+    let tag_skew: u32 = args[3].parse().unwrap_or(0);
+    for _ in 0..tag_skew {
+        let _ = texlang::command::Tag::new();
+    }
+    let b = match std::fs::read(&args[0]) {
+        Ok(b) => b,
+        Err(e) => {
+            println!("read: {e}");
+            return 3;
+        }
+    };
+    let si: SegIn = match bincode::serde::decode_from_slice(&b, bincode::config::standard()) {
+        Ok((si, _)) => si,
+        Err(e) => {
+            println!("decode: {e}");
+            return 3;
+        }
+    };
+    match process::run_process(hash_seed, move || run_segment(si)) {
+        Ok(so) => {
+            let bytes = bincode::serde::encode_to_vec(&so, bincode::config::standard()).unwrap();
+            if std::fs::write(&args[1], bytes).is_err() {
+                return 3;
+            }
+            0
+        }
+        Err((loc, msg)) => {
+            println!("segment panicked outside a line at {loc}: {msg}");
+            3
+        }
+    }
 }
